@@ -360,6 +360,10 @@ def main(argv):
             c["corpus"] = os.path.basename(f)
             corpus.append(c)
         cases = corpus + list(mod.generate(rng, a.tier))
+        if a.tier == "thorough":
+            # three independent streams (the per-module thorough counts are sized for ~1-3 minutes each)
+            for extra_seed in (seed + 1000, seed + 2000):
+                cases += list(mod.generate(random.Random(extra_seed), a.tier))
 
     # ---- 3. extra per-property work (translator validation, numeric oracles, alias graph) ------
     extra = getattr(mod, "extra_checks", None)
